@@ -21,6 +21,7 @@ CS = dict(
     assumptions=["cipher_spec: the real supportedCiphers table of the default configuration; suite id, per-session disabled list (32 slots, arbitrary contents incl. holes), global disabled bits, flags and versions arbitrary"],
     undefined_ok=["psGetOutputBlockLength"],
     unwind=90, unwindset={"vf_harness:/for \\(i = 0; i < SSL_MAX_DISABLED/": 34, "vf_harness:/for \\(i = 0; i < 8/": 10, "table_index:/./": 90},
+    cap_s=1500,
     cases=[dict(name="op%d" % o, defs={"VF_OP": o}) for o in (0, 1, 2)],
 )
 SCSV = dict(
